@@ -2,6 +2,7 @@ package rules
 
 import (
 	"go/token"
+	"strconv"
 	"strings"
 
 	"golang.org/x/tools/go/ssa"
@@ -131,10 +132,27 @@ func c33(c *engine.Ctx) {
 			})
 		}
 	}
-	// one critical section in nextPlain: a single Lock/Unlock pair around load and store
+	// The claim of a part (read the offset, advance it) may live in nextPlain or in
+	// a helper of the same receiver whose result nextPlain passes on as the offset
+	// (reserveOffset()): cf is the function that contains it, claimCall the call of
+	// the helper in nextPlain (nil when the claim is in place).
+	cf := np
+	var claimCall *ssa.Call
+	for _, call := range engine.CallsTo(np, false, "(*telegram/downloader.reader).next") {
+		a := engine.Args(call.Common())
+		if hc, ok := engine.Unwrap(a[2]).(*ssa.Call); ok {
+			if h := hc.Common().StaticCallee(); h != nil && len(h.Blocks) > 0 && h.Pkg == np.Pkg && len(hc.Common().Args) > 0 && engine.Unwrap(hc.Common().Args[0]) == ssa.Value(np.Params[0]) {
+				cf, claimCall = h, hc
+			}
+		}
+	}
+	recvField := func(f *ssa.Function, v ssa.Value, field string) bool {
+		return engine.Describe(v) == "p:"+engine.ParamName(f.Params[0])+"."+field
+	}
+	// one critical section: a single Lock/Unlock pair around load and store
 	{
-		locks := engine.CallsTo(np, false, "(*sync.Mutex).Lock")
-		unlocks := engine.CallsTo(np, false, "(*sync.Mutex).Unlock")
+		locks := engine.CallsTo(cf, false, "(*sync.Mutex).Lock")
+		unlocks := engine.CallsTo(cf, false, "(*sync.Mutex).Unlock")
 		n1++
 		c.Check(len(locks) == 1 && len(unlocks) == 1, "C33.R1", "nextPlain/one-critical-section", np.Pos(), "the read and the advance of the offset must share one critical section (locks %d, unlocks %d)", len(locks), len(unlocks))
 	}
@@ -145,22 +163,26 @@ func c33(c *engine.Ctx) {
 	{
 		var ld *ssa.UnOp
 		var st *ssa.Store
-		engine.Instrs(np, func(i ssa.Instruction) {
+		engine.Instrs(cf, func(i ssa.Instruction) {
 			switch x := i.(type) {
 			case *ssa.UnOp:
-				if x.Op == token.MUL && engine.Describe(x.X) == "p:r.offset" && ld == nil {
+				if x.Op == token.MUL && recvField(cf, x.X, "offset") && ld == nil {
 					ld = x
 				}
 			case *ssa.Store:
-				if engine.Describe(x.Addr) == "p:r.offset" {
+				if recvField(cf, x.Addr, "offset") {
 					st = x
 				}
 			}
 		})
 		okAdv := false
 		if st != nil {
-			if b, ok := st.Val.(*ssa.BinOp); ok && b.Op == token.ADD && engine.Describe(b.X) == "p:r.offset" && engine.Describe(b.Y) == "p:r.partSize" {
-				okAdv = true
+			if b, ok := st.Val.(*ssa.BinOp); ok && b.Op == token.ADD {
+				for _, p := range [][2]ssa.Value{{b.X, b.Y}, {b.Y, b.X}} {
+					if recvField(cf, p[0], "offset") && recvField(cf, p[1], "partSize") {
+						okAdv = true
+					}
+				}
 			}
 		}
 		n2++
@@ -168,7 +190,19 @@ func c33(c *engine.Ctx) {
 		for _, call := range engine.CallsTo(np, false, "(*telegram/downloader.reader).next") {
 			n2++
 			a := engine.Args(call.Common())
-			c.Check(ld != nil && engine.Unwrap(a[2]) == ssa.Value(ld) && engine.Describe(a[3]) == "p:r.partSize" && st != nil && engine.Dominates(ld, st), "C33.R2", "nextPlain/requests-claimed-range", call.Pos(), "the chunk requested must start at the offset read before the advance and span r.partSize (requests %s, %s)", engine.Describe(a[2]), engine.Describe(a[3]))
+			// the offset requested is the value read before the advance: the load
+			// itself, or the result of the claim helper, every return of which hands
+			// back that load
+			okOff := ld != nil && engine.Unwrap(a[2]) == ssa.Value(ld)
+			if claimCall != nil && ld != nil && engine.Unwrap(a[2]) == ssa.Value(claimCall) {
+				okOff = true
+				for _, r := range engine.Returns(cf) {
+					if len(r.Results) != 1 || engine.Unwrap(engine.RetVal(r, 0)) != ssa.Value(ld) {
+						okOff = false
+					}
+				}
+			}
+			c.Check(okOff && recvField(np, a[3], "partSize") && st != nil && engine.Dominates(ld, st), "C33.R2", "nextPlain/requests-claimed-range", call.Pos(), "the chunk requested must start at the offset read before the advance and span r.partSize (requests %s, %s)", engine.Describe(a[2]), engine.Describe(a[3]))
 		}
 	}
 	// ---- R3 reader.next
@@ -283,7 +317,9 @@ func c33(c *engine.Ctx) {
 		if fn == nil {
 			continue
 		}
-		for _, g := range engine.WithAnon(fn) {
+		// (the producer loop may be a closure of the function or of a helper that
+		// builds the worker)
+		for _, g := range withHelpers(fn, 1) {
 			var nextCall *ssa.Call
 			for _, call := range engine.CallsTo(g, false, "(*telegram/downloader.reader).Next") {
 				nextCall, _ = call.(*ssa.Call)
@@ -362,13 +398,26 @@ func c33(c *engine.Ctx) {
 		}
 	}
 	if lf := c.MustFunc("C33.R5", dlPkg, "block.last"); lf != nil {
-		ok := false
-		for _, r := range engine.Returns(lf) {
-			if b, isB := r.Results[0].(*ssa.BinOp); isB && b.Op == token.LSS && engine.Describe(b.X) == "builtin.len(p:b.chunk.data)" && engine.Describe(b.Y) == "p:b.partSize" {
-				ok = true
-			}
-			if b, isB := r.Results[0].(*ssa.BinOp); isB && b.Op == token.LSS && strings.HasPrefix(engine.Describe(b.X), "builtin.len(p:b.") && strings.HasSuffix(engine.Describe(b.X), "data)") && engine.Describe(b.Y) == "p:b.partSize" {
-				ok = true
+		// evaluated in the three order classes of len(data) against partSize, however
+		// the comparison is spelled
+		ok := true
+		isLen := func(v ssa.Value) bool {
+			d := engine.Describe(v)
+			return strings.HasPrefix(d, "builtin.len(p:b.") && strings.HasSuffix(d, "data)")
+		}
+		isPart := func(v ssa.Value) bool { return engine.Describe(v) == "p:b.partSize" }
+		for _, o := range []int{-1, 0, 1} {
+			res, err := engine.AbstractRun(lf, func(x, y ssa.Value) (int, bool) {
+				switch {
+				case isLen(x) && isPart(y):
+					return o, true
+				case isPart(x) && isLen(y):
+					return -o, true
+				}
+				return 0, false
+			})
+			if err != nil || res.Bool == nil || *res.Bool != (o < 0) {
+				ok = false
 			}
 		}
 		n5++
@@ -482,7 +531,7 @@ func c34(c *engine.Ctx) {
 		for _, call := range engine.CallsTo(pc, false, "telegram/downloader.newCDNSchema") {
 			n3++
 			d := engine.Describe(call.Common().Args[4])
-			c.Check(d == "!p:b.verify" || d == "!alloc:clone.verify", "C34.R3", "prepareCDNPath/inline-iff-outer-off", call.Pos(), "the CDN schema must verify inline exactly when the outer verifier is off (passes %s)", d)
+			c.Check(d == "!p:b.verify" || normAllocs(d) == "!alloc:#1.verify", "C34.R3", "prepareCDNPath/inline-iff-outer-off", call.Pos(), "the CDN schema must verify inline exactly when the outer verifier is off (passes %s)", d)
 		}
 	}
 	if nc := c.MustFunc("C34.R3", dlPkg, "newCDNSchema"); nc != nil {
@@ -788,6 +837,101 @@ func c34R6(c *engine.Ctx) {
 	c.Floor("C34.R6", 8, n)
 }
 
+// hashCheck is one comparison of a SHA256 digest with a hash window's hash:
+// bytes.Equal(crypto.SHA256(data), h.Hash) written in place, or a call of a
+// same-package predicate whose only return is that comparison over its
+// parameters (matchesFileHash(data, h)).
+type hashCheck struct {
+	at    *ssa.Call // the bytes.Equal call, or the predicate call
+	data  ssa.Value // what is hashed, in the caller's terms
+	hash  ssa.Value // in-place form: the value the digest is compared with
+	owner ssa.Value // predicate form: the FileHash argument whose Hash field is compared
+}
+
+// passes / fails: the comparison k holds on an edge where the check succeeded / failed.
+func (h hashCheck) passes(k engine.Cmp) bool { return h.outcome(k, true) }
+func (h hashCheck) fails(k engine.Cmp) bool  { return h.outcome(k, false) }
+func (h hashCheck) outcome(k engine.Cmp, want bool) bool {
+	if h.owner == nil {
+		return k.Via == h.at && ((k.Op == token.EQL) == want) && (k.Op == token.EQL || k.Op == token.NEQ)
+	}
+	b, isB := engine.ConstBool(k.Y)
+	if !isB || engine.CallOf(k.X) != h.at {
+		return false
+	}
+	switch k.Op {
+	case token.EQL:
+		return b == want
+	case token.NEQ:
+		return b != want
+	}
+	return false
+}
+
+func hashChecks(fn *ssa.Function) []hashCheck {
+	var out []hashCheck
+	for _, ci := range engine.Calls(fn) {
+		call, ok := ci.(*ssa.Call)
+		if !ok {
+			continue
+		}
+		if engine.CalleeID(call.Common()) == "bytes.Equal" {
+			x, y := call.Common().Args[0], call.Common().Args[1]
+			for _, p := range [][2]ssa.Value{{x, y}, {y, x}} {
+				if a := sha256Arg(p[0]); a != nil {
+					out = append(out, hashCheck{at: call, data: a, hash: p[1]})
+					break
+				}
+			}
+			continue
+		}
+		h := call.Common().StaticCallee()
+		if h == nil || len(h.Blocks) == 0 || h.Pkg != fn.Pkg || h.Signature.Results().Len() != 1 {
+			continue
+		}
+		rets := engine.Returns(h)
+		if len(rets) != 1 {
+			continue
+		}
+		eq := isCallTo(rets[0].Results[0], "bytes.Equal")
+		if eq == nil {
+			continue
+		}
+		x, y := eq.Common().Args[0], eq.Common().Args[1]
+		for _, p := range [][2]ssa.Value{{x, y}, {y, x}} {
+			a := sha256Arg(p[0])
+			if a == nil {
+				continue
+			}
+			data := argOfParam(a, call)
+			// the other side: field Hash of a parameter
+			var owner ssa.Value
+			for i, prm := range h.Params {
+				if i < len(call.Common().Args) && strings.HasSuffix(descCell(p[1]), engine.ParamName(prm)+".Hash") {
+					owner = call.Common().Args[i]
+				}
+			}
+			if data != nil && owner != nil {
+				out = append(out, hashCheck{at: call, data: data, owner: owner})
+			}
+		}
+	}
+	return out
+}
+
+// isResultVal: v is result idx of call, possibly kept in a local.
+func isResultVal(v ssa.Value, call *ssa.Call, idx int) bool {
+	v = engine.Unwrap(v)
+	if ld, ok := v.(*ssa.UnOp); ok && ld.Op == token.MUL {
+		if a, isA := ld.X.(*ssa.Alloc); isA {
+			if sts := storesTo(a.Parent(), a); len(sts) == 1 {
+				v = engine.Unwrap(sts[0].Val)
+			}
+		}
+	}
+	return isResult(v, call, idx)
+}
+
 func c34R2(c *engine.Ctx) {
 	n := 0
 	vc := c.MustFunc("C34.R2", dlPkg, "cdn.verifyChunk")
@@ -805,31 +949,30 @@ func c34R2(c *engine.Ctx) {
 	}
 	// comparisons
 	pass := map[[2]*ssa.BasicBlock]bool{}
-	for _, call := range engine.CallsTo(vc, false, "bytes.Equal") {
-		eq := call.(*ssa.Call)
-		x, y := eq.Common().Args[0], eq.Common().Args[1]
+	for k, hc := range hashChecks(vc) {
+		hc := hc
+		call := hc.at
 		okShape := false
-		for _, p := range [][2]ssa.Value{{x, y}, {y, x}} {
-			a := sha256Arg(p[0])
-			if a == nil {
-				continue
-			}
-			sl, isSl := engine.Unwrap(a).(*ssa.Slice)
-			if isSl && engine.Unwrap(sl.X) == ssa.Value(vc.Params[4]) && resultField(p[1], hf, 0, "Hash") {
-				okShape = true
+		sl, isSl := engine.Unwrap(hc.data).(*ssa.Slice)
+		if isSl && engine.Unwrap(sl.X) == ssa.Value(vc.Params[4]) {
+			if hc.owner == nil {
+				okShape = resultField(hc.hash, hf, 0, "Hash")
+			} else {
+				okShape = isResultVal(hc.owner, hf, 0)
 			}
 		}
 		n++
-		c.Check(okShape, "C34.R2", "verifyChunk/compare#"+ordinalCall(vc, call)+"/sha256-of-chunk-slice-vs-window-hash", call.Pos(), "each comparison must be SHA256 over a slice of the chunk against the hash of the current window")
+		ord := strconv.Itoa(k)
+		c.Check(okShape, "C34.R2", "verifyChunk/compare#"+ord+"/sha256-of-chunk-slice-vs-window-hash", call.Pos(), "each comparison must be SHA256 over a slice of the chunk against the hash of the current window")
 		// mismatch edge rejects. engine.Guard normalises bytes.Equal to ==/!=
-		mism := engine.EdgesWhere(vc, func(k engine.Cmp) bool { return k.Via == eq && k.Op == token.NEQ })
+		mism := engine.EdgesWhere(vc, hc.fails)
 		okRej := len(mism) == 1
 		for e := range mism {
 			iff := e[0].Instrs[len(e[0].Instrs)-1].(*ssa.If)
 			okRej = okRej && engine.RejectEdge(iff, e[0].Succs[0] == e[1])
 		}
-		c.Check(okRej, "C34.R2", "verifyChunk/compare#"+ordinalCall(vc, call)+"/mismatch-fails", call.Pos(), "a mismatching window must fail the chunk with a non-nil error")
-		for e := range engine.EdgesWhere(vc, func(k engine.Cmp) bool { return k.Via == eq && k.Op == token.EQL }) {
+		c.Check(okRej, "C34.R2", "verifyChunk/compare#"+ord+"/mismatch-fails", call.Pos(), "a mismatching window must fail the chunk with a non-nil error")
+		for e := range engine.EdgesWhere(vc, hc.passes) {
 			pass[e] = true
 		}
 	}
@@ -914,21 +1057,18 @@ func c34R2(c *engine.Ctx) {
 		if g == lw {
 			continue
 		}
-		var eq *ssa.Call
-		for _, call := range engine.CallsTo(g, false, "bytes.Equal") {
-			eq, _ = call.(*ssa.Call)
-		}
-		if eq == nil {
+		hcs := hashChecks(g)
+		if len(hcs) == 0 {
 			c.Fail("C34.R2", "loadAndVerifyWindow/compares", g.Pos(), "the window loader never compares a hash")
 			continue
 		}
+		hc := hcs[len(hcs)-1]
+		eq := hc.at
 		n++
-		x, y := eq.Common().Args[0], eq.Common().Args[1]
 		okShape := false
 		var dataV ssa.Value
-		for _, p := range [][2]ssa.Value{{x, y}, {y, x}} {
-			a := sha256Arg(p[0])
-			if a != nil && strings.HasSuffix(descCell(p[1]), "hash.Hash") && strings.HasSuffix(engine.Describe(a), "#0.data") && strings.Contains(engine.Describe(a), ".Chunk(") {
+		if a := hc.data; strings.HasSuffix(engine.Describe(a), "#0.data") && strings.Contains(engine.Describe(a), ".Chunk(") {
+			if (hc.owner == nil && strings.HasSuffix(descCell(hc.hash), "hash.Hash")) || (hc.owner != nil && strings.HasSuffix(descCell(hc.owner), "hash")) {
 				okShape = true
 				dataV = a
 			}
@@ -941,12 +1081,12 @@ func c34R2(c *engine.Ctx) {
 			v := engine.RetVal(r, 0)
 			if dataV != nil && engine.Describe(v) == engine.Describe(dataV) {
 				n++
-				c.Check(engine.GuardedBy(r, func(k engine.Cmp) bool { return k.Via == eq && k.Op == token.EQL }), "C34.R2", "loadAndVerifyWindow/return#"+ordinal(g, r)+"/only-verified", r.Pos(), "fetched window bytes may be handed out only after the hash matched")
+				c.Check(engine.GuardedBy(r, hc.passes), "C34.R2", "loadAndVerifyWindow/return#"+ordinal(g, r)+"/only-verified", r.Pos(), "fetched window bytes may be handed out only after the hash matched")
 			}
 		}
 		for _, cw := range engine.CallsTo(g, false, "(*telegram/downloader.cdn).cacheWindow") {
 			n++
-			c.Check(engine.GuardedBy(cw, func(k engine.Cmp) bool { return k.Via == eq && k.Op == token.EQL }), "C34.R2", "loadAndVerifyWindow/caches-only-verified", cw.Pos(), "only verified windows may enter the cache")
+			c.Check(engine.GuardedBy(cw, hc.passes), "C34.R2", "loadAndVerifyWindow/caches-only-verified", cw.Pos(), "only verified windows may enter the cache")
 		}
 	}
 	// cacheWindow has no other caller
